@@ -90,3 +90,1037 @@ Proof.
     destruct (bb_len (s_buf s) + blen d =? s_limit s) eqn:E3; [lia|].
     cbn [orb]. exists b'. rewrite Z.add_0_l. auto.
 Qed.
+
+(* ---------- case C: the chunk reaches the limit ---------- *)
+Lemma reached_1 s b : set_buf (set_dataerr s) b = mk_reached s b. Proof. reflexivity. Qed.
+Lemma reached_2 s b : set_dataerr (set_buf s b) = mk_reached s b. Proof. reflexivity. Qed.
+Lemma reached_3 s b : set_dataerr (mk_reached s b) = mk_reached s b. Proof. reflexivity. Qed.
+Lemma reached_4 s : set_dataerr s = mk_reached s (s_buf s). Proof. reflexivity. Qed.
+
+Definition reach_bytes (c : tb_cfg) (s : tb_st) (k : tb_call) : bytes :=
+  firstn (Z.to_nat (L c - slen s)) (call_data k).
+
+Lemma step_reaches c s k :
+  wf_cfg c -> active c -> tinv c s -> is_write k = true -> realistic k ->
+  slen s < L c -> L c <= slen s + blen (call_data k) ->
+  exists b',
+    bb_inv (c_opt c) b' /\
+    match c_action c with
+    | Reject =>
+        (if is_unknown k then bb_contents b' = stored s ++ reach_bytes c s k /\ bb_len b' = L c
+         else b' = s_buf s) /\
+        tb_step c s k = set_limit_intr c (mk_reached s b')
+    | ProcessPartial =>
+        bb_contents b' = stored s ++ reach_bytes c s k /\ bb_len b' = L c /\
+        tb_step c s k = (fst (process_body c (mk_reached s b')),
+                         mk_ret (s_intr (fst (process_body c (mk_reached s b')))) (L c - slen s) false)
+    end.
+Proof.
+  intros (W1 & W2 & W3) (He & Ha) (Hi & Hl & Hle & Hd) Hw Hr Hlt Hge.
+  pose proof (bb_inv_len_nonneg _ _ Hi) as Hn. unfold reach_bytes, slen, stored, L, realistic, gib, max_int64 in *.
+  destruct k as [d|kn rs d| |z]; try discriminate; cbn [call_data is_unknown] in *; pose proof (blen_nonneg d) as Hd0;
+    cbn [tb_step]; unfold write_slice, read_from; rewrite He, Ha; cbn [negb].
+  - (* slice *)
+    destruct (s_limit s =? bb_len (s_buf s)) eqn:E1; [lia|].
+    assert (overflow_guard c s (blen d) = false) as ->.
+    { unfold overflow_guard, max_int64. destruct (c_dir c); [lia | reflexivity]. }
+    destruct (bb_len (s_buf s) + blen d >=? s_limit s) eqn:E2; [|lia].
+    destruct (c_action c).
+    + exists (s_buf s). split; [exact Hi|]. split; [reflexivity|]. rewrite reached_4. reflexivity.
+    + set (wb := Z.max 0 (s_limit s - bb_len (s_buf s))).
+      assert ((wb <? 0) || (wb >? blen d) = false) as -> by lia.
+      destruct (bb_write_ok (c_opt c) (s_buf s) (firstn (Z.to_nat wb) d) Hi) as (b' & Hwr & Hc & Hlen & Hi').
+      { rewrite blen_firstn_Z. lia. }
+      cbn [set_dataerr s_buf]. rewrite Hwr.
+      rewrite blen_firstn_Z in *. exists b'. split; [exact Hi'|].
+      replace (Z.to_nat (bo_limit (c_opt c) - bb_len (s_buf s))) with (Z.to_nat wb) by lia.
+      split; [exact Hc|]. split; [lia|].
+      rewrite reached_1. destruct (process_body c (mk_reached s b')) as [s3 i]. cbn [fst].
+      f_equal. f_equal. lia.
+  - (* reader *)
+    destruct (s_limit s =? bb_len (s_buf s)) eqn:E1; [lia|].
+    assert (kn && overflow_guard c s (blen d) = false) as ->.
+    { unfold overflow_guard, max_int64. destruct kn, (c_dir c); cbn [andb]; try reflexivity; lia. }
+    destruct kn; cbn [andb negb].
+    + (* known length *)
+      destruct (bb_len (s_buf s) + blen d >=? s_limit s) eqn:E2; [|lia].
+      destruct (c_action c).
+      * exists (s_buf s). split; [exact Hi|]. split; [reflexivity|]. rewrite reached_4. reflexivity.
+      * cbn [negb]. set (n := s_limit s - bb_len (s_buf s)). unfold bb_copyN.
+        destruct (bb_copy_loop_ok (c_opt c) rs (copy_bufsize n) (copy_bufsize_pos n) (S (length d))
+                    (s_buf (set_dataerr s)) d n 0 Hi) as (b' & Hcp & Hc & Hlen & Hi'); [lia | cbn [set_dataerr s_buf]; lia |].
+        rewrite Hcp. cbn [set_dataerr s_buf] in *. rewrite reached_1. cbn [mk_reached s_limit].
+        replace (Z.min (Z.max 0 n) (blen d)) with n in * by lia.
+        rewrite Hlen. replace (bb_len (s_buf s) + n =? s_limit s) with true by lia.
+        rewrite reached_3. cbn [orb].
+        exists b'. split; [exact Hi'|]. replace (bo_limit (c_opt c) - bb_len (s_buf s)) with n by lia.
+        split; [exact Hc|]. split; [lia|].
+        destruct (process_body c (mk_reached s b')) as [s3 i]. cbn [fst]. rewrite Z.add_0_l. reflexivity.
+    + (* unknown length *)
+      set (n := s_limit s - bb_len (s_buf s)). unfold bb_copyN.
+      destruct (bb_copy_loop_ok (c_opt c) rs (copy_bufsize n) (copy_bufsize_pos n) (S (length d))
+                  (s_buf s) d n 0 Hi) as (b' & Hcp & Hc & Hlen & Hi'); [lia | lia |].
+      rewrite Hcp. cbn [set_buf s_limit].
+      replace (Z.min (Z.max 0 n) (blen d)) with n in * by lia.
+      rewrite Hlen. replace (bb_len (s_buf s) + n =? s_limit s) with true by lia.
+      rewrite reached_2. exists b'. split; [exact Hi'|].
+      replace (bo_limit (c_opt c) - bb_len (s_buf s)) with n by lia.
+      destruct (c_action c).
+      * split; [split; [exact Hc | lia]|]. reflexivity.
+      * split; [exact Hc|]. split; [lia|]. cbn [orb].
+        destruct (process_body c (mk_reached s b')) as [s3 i]. cbn [fst]. rewrite Z.add_0_l. reflexivity.
+Qed.
+
+(* ---------- runs ---------- *)
+Lemma tb_run_app c s a b :
+  tb_run c s (a ++ b) =
+  let '(s1, r1) := tb_run c s a in let '(s2, r2) := tb_run c s1 b in (s2, r1 ++ r2).
+Proof.
+  revert s; induction a as [|k a IH]; intros s; cbn [tb_run app].
+  - destruct (tb_run c s b); reflexivity.
+  - destruct (tb_step c s k) as [s1 x]. rewrite IH.
+    destruct (tb_run c s1 a) as [s2 r1]. destruct (tb_run c s2 b) as [s3 r2]. reflexivity.
+Qed.
+
+Lemma tb_final_cons c s k ks : tb_final c s (k :: ks) = tb_final c (fst (tb_step c s k)) ks.
+Proof.
+  unfold tb_final; cbn [tb_run]. destruct (tb_step c s k) as [s1 x]. cbn [fst]. destruct (tb_run c s1 ks); reflexivity.
+Qed.
+
+Lemma tb_final_app c s a b : tb_final c s (a ++ b) = tb_final c (tb_final c s a) b.
+Proof.
+  unfold tb_final. rewrite tb_run_app. destruct (tb_run c s a) as [s1 r1]. cbn [fst].
+  destruct (tb_run c s1 b); reflexivity.
+Qed.
+
+Lemma tb_rets_snoc c s ks k :
+  tb_rets c s (ks ++ [k]) = tb_rets c s ks ++ [snd (tb_step c (tb_final c s ks) k)].
+Proof.
+  unfold tb_rets, tb_final. rewrite tb_run_app. destruct (tb_run c s ks) as [s1 r1]. cbn [fst snd tb_run].
+  destruct (tb_step c s1 k); reflexivity.
+Qed.
+
+Lemma supplied_cons k ks : supplied (k :: ks) = call_data k ++ supplied ks.
+Proof. reflexivity. Qed.
+
+Lemma supplied_app a b : supplied (a ++ b) = supplied a ++ supplied b.
+Proof. unfold supplied. rewrite map_app, concat_app. reflexivity. Qed.
+
+(* calls of a run without ctl limit changes: slice writes, reader writes, explicit body-phase calls *)
+Definition body_call (k : tb_call) : bool := match k with CtlLimit _ => false | _ => true end.
+Definition calls_ok (ks : list tb_call) : Prop := Forall (fun k => body_call k = true /\ realistic k) ks.
+Definition writes_ok (ks : list tb_call) : Prop := Forall (fun k => is_write k = true /\ realistic k) ks.
+
+Lemma writes_calls_ok ks : writes_ok ks -> calls_ok ks.
+Proof.
+  apply Forall_impl. intros k [H R]. split; [|exact R]. destruct k; try discriminate; reflexivity.
+Qed.
+
+(* ---------- the body phase ---------- *)
+Definition var_cond (c : tb_cfg) (x : bytes) : bool :=
+  match c_dir c with
+  | Req => c_access c && negb (blen x =? 0) && match c_bp c with BPnone => false | _ => true end
+  | Resp => c_access c && c_processable c
+  end.
+(* value of REQUEST_BODY / RESPONSE_BODY after the phase ran over buffer contents x *)
+Definition var_after (c : tb_cfg) (old x : bytes) : bytes := if var_cond c x then x else old.
+Definition deny_intr (c : tb_cfg) : option Z := if c_deny c then Some 403 else None.
+
+Definition ran (c : tb_cfg) (x : tb_st) : tb_st :=
+  {| s_buf := s_buf x; s_limit := s_limit x; s_intr := deny_intr c; s_dataerr := s_dataerr x;
+     s_phase := body_phase (c_dir c); s_runs := S (s_runs x);
+     s_seen := Some (var_after c (s_bodyvar x) (stored x));
+     s_bodyvar := var_after c (s_bodyvar x) (stored x) |}.
+
+Lemma process_runs c x :
+  c_engine_on c = true -> bb_inv (c_opt c) (s_buf x) -> s_intr x = None -> s_phase x = hdr_phase (c_dir c) ->
+  process_body c x = (ran c x, deny_intr c).
+Proof.
+  intros He [Hi _] Hn Hp. unfold process_body. rewrite He, Hn, Hp, Z.eqb_refl. cbn [negb].
+  assert (body_var_set c x = var_cond c (stored x)) as E.
+  { unfold body_var_set, var_cond, stored. rewrite Hi. reflexivity. }
+  unfold ran, var_after, deny_intr, stored. rewrite E. reflexivity.
+Qed.
+
+Lemma process_noop c x :
+  s_intr x <> None \/ s_phase x <> hdr_phase (c_dir c) -> fst (process_body c x) = x.
+Proof.
+  intros H. unfold process_body. destruct (negb (c_engine_on c)); [reflexivity|].
+  destruct (s_intr x) eqn:Ei; [reflexivity|]. destruct H as [H|H]; [congruence|].
+  destruct (s_phase x =? hdr_phase (c_dir c)) eqn:E; [lia|]. reflexivity.
+Qed.
+
+Lemma process_keeps c x :
+  s_buf (fst (process_body c x)) = s_buf x /\ s_limit (fst (process_body c x)) = s_limit x
+  /\ s_dataerr (fst (process_body c x)) = s_dataerr x.
+Proof.
+  unfold process_body. destruct (negb (c_engine_on c)); [auto|]. destruct (s_intr x); [auto|].
+  destruct (negb (s_phase x =? hdr_phase (c_dir c))); cbn; auto.
+Qed.
+
+Lemma hdr_body_phase d : body_phase d <> hdr_phase d.
+Proof. destruct d; cbn; lia. Qed.
+
+(* the transaction is waiting for its body phase *)
+Definition pending (c : tb_cfg) (s : tb_st) : Prop :=
+  s_phase s = hdr_phase (c_dir c) /\ s_intr s = None /\ s_runs s = 0%nat /\ s_seen s = None.
+(* everything except buffer and data-error flag is unchanged *)
+Definition ghost_eq (s s' : tb_st) : Prop :=
+  s_phase s' = s_phase s /\ s_runs s' = s_runs s /\ s_seen s' = s_seen s /\ s_bodyvar s' = s_bodyvar s
+  /\ s_intr s' = s_intr s.
+
+Lemma ghost_eq_refl s : ghost_eq s s.
+Proof. repeat split. Qed.
+
+Lemma ghost_eq_trans a b c' : ghost_eq a b -> ghost_eq b c' -> ghost_eq a c'.
+Proof. unfold ghost_eq. intuition congruence. Qed.
+
+Lemma firstn_full_app {A} n (a b : list A) : length a = n -> firstn n (a ++ b) = a.
+Proof. intros <-. rewrite firstn_app, Nat.sub_diag, firstn_all. cbn. apply app_nil_r. Qed.
+
+Lemma firstn_short_app {A} n (a : list A) : (length a <= n)%nat -> firstn n a = a.
+Proof. apply firstn_all2. Qed.
+
+(* ---------- ProcessPartial: one call ---------- *)
+Definition triggers (c : tb_cfg) (s : tb_st) (k : tb_call) : bool :=
+  negb (is_write k) || (L c <=? slen s + blen (call_data k)).
+
+Lemma pp_step c s k :
+  wf_cfg c -> active c -> c_action c = ProcessPartial -> tinv c s -> body_call k = true -> realistic k ->
+  let s1 := fst (tb_step c s k) in
+  tinv c s1
+  /\ stored s1 = firstn (Z.to_nat (L c)) (stored s ++ call_data k)
+  /\ s_dataerr s1 = s_dataerr s || (is_write k && (L c <=? slen s + blen (call_data k)))
+  /\ (s_phase s <> hdr_phase (c_dir c) -> ghost_eq s s1)
+  /\ (pending c s -> slen s < L c ->
+      if triggers c s k
+      then s_phase s1 = body_phase (c_dir c) /\ s_runs s1 = 1%nat /\ s_intr s1 = deny_intr c
+           /\ s_seen s1 = Some (var_after c (s_bodyvar s) (stored s1))
+           /\ s_bodyvar s1 = var_after c (s_bodyvar s) (stored s1)
+      else pending c s1 /\ s_bodyvar s1 = s_bodyvar s /\ slen s1 < L c).
+Proof.
+  intros W A HP Ti Hb Hr. pose proof Ti as (Hi & Hl & Hle & Hd). pose proof (tinv_len c s Ti) as [Hsl Hs0].
+  destruct A as [He Ha]. pose proof (conj He Ha : active c) as A.
+  assert (HLnat : Z.of_nat (Z.to_nat (L c)) = L c) by (destruct W as (? & ? & ?); unfold L; lia).
+  destruct (is_write k) eqn:Hw.
+  2:{ (* ProcessBody *)
+    destruct k; try discriminate. cbn [tb_step call_data is_write]. rewrite app_nil_r. unfold triggers. cbn [is_write negb orb andb].
+    rewrite orb_false_r.
+    destruct (process_keeps c s) as (B1 & B2 & B3).
+    destruct (process_body c s) as [s1 i] eqn:Ep. cbn [fst] in *.
+    split. { unfold tinv, slen. rewrite B1, B2, B3. exact Ti. }
+    split. { unfold stored. rewrite B1. symmetry. apply firstn_short_app. unfold stored, slen, blen in *. lia. }
+    split. { exact B3. }
+    split.
+    { intros Hne. replace s1 with (fst (process_body c s)) by (rewrite Ep; reflexivity).
+      rewrite process_noop by (right; exact Hne). apply ghost_eq_refl. }
+    intros (P1 & P2 & P3 & P4) Hlt. rewrite (process_runs c s He Hi P2 P1) in Ep. inversion Ep; subst s1 i.
+    cbn [ran s_phase s_runs s_intr s_seen s_bodyvar]. rewrite P3. unfold stored at 2 4. cbn [ran s_buf]. auto. }
+  (* a write call *)
+  cbn [andb]. unfold triggers. rewrite Hw. cbn [negb orb].
+  destruct (Z.eq_dec (slen s) (L c)) as [Hfull|Hnf].
+  { (* already full *)
+    rewrite (step_full c s k A Ti Hw Hfull). cbn [fst].
+    split; [exact Ti|]. split.
+    { symmetry. rewrite firstn_full_app; [reflexivity|]. unfold blen in *. lia. }
+    split. { rewrite (Hd Hfull). reflexivity. }
+    split. { intros _. apply ghost_eq_refl. }
+    intros _ Hlt. lia. }
+  destruct (Z.lt_ge_cases (slen s + blen (call_data k)) (L c)) as [Hfit|Hreach].
+  { (* fits *)
+    destruct (step_fits c s k W A Ti Hw Hr Hfit) as (b' & Hst & Hc & Hlen & Hi').
+    rewrite Hst. cbn [fst]. replace (L c <=? slen s + blen (call_data k)) with false by lia.
+    split. { unfold tinv, slen in *. cbn [set_buf s_buf s_limit s_dataerr].
+             split; [exact Hi'|]. split; [exact Hl|]. split; [lia|]. intros X. lia. }
+    split. { unfold stored at 1. cbn [set_buf s_buf]. rewrite Hc. symmetry. apply firstn_short_app.
+             rewrite app_length. unfold blen in *. lia. }
+    split. { cbn [set_buf s_dataerr]. rewrite orb_false_r. reflexivity. }
+    split. { intros _. repeat split. }
+    intros (P1 & P2 & P3 & P4) Hlt. split; [repeat split; assumption|]. split; [reflexivity|].
+    unfold slen. cbn [set_buf s_buf]. unfold slen in *. lia. }
+  (* reaches the limit *)
+  assert (Hlt : slen s < L c) by lia.
+  destruct (step_reaches c s k W A Ti Hw Hr Hlt Hreach) as (b' & Hi' & Hst). rewrite HP in Hst.
+  destruct Hst as (Hc & Hlen & Hst). rewrite Hst. cbn [fst].
+  replace (L c <=? slen s + blen (call_data k)) with true by lia.
+  assert (Hstored : bb_contents b' = firstn (Z.to_nat (L c)) (stored s ++ call_data k)).
+  { rewrite Hc. unfold reach_bytes. rewrite firstn_app_le by (unfold blen in *; lia). f_equal. f_equal.
+    unfold blen in *. lia. }
+  destruct (process_keeps c (mk_reached s b')) as (B1 & B2 & B3).
+  split. { unfold tinv, slen. rewrite B1, B2, B3. cbn [mk_reached s_buf s_limit s_dataerr].
+           split; [exact Hi'|]. split; [exact Hl|]. split; [lia|]. reflexivity. }
+  split. { unfold stored at 1. rewrite B1. cbn [mk_reached s_buf]. exact Hstored. }
+  split. { rewrite B3. cbn [mk_reached s_dataerr]. rewrite orb_true_r. reflexivity. }
+  split.
+  { intros Hne. rewrite process_noop by (right; exact Hne). repeat split. }
+  intros (P1 & P2 & P3 & P4) _.
+  rewrite (process_runs c (mk_reached s b') He Hi' P2 P1). cbn [fst ran s_phase s_runs s_intr s_seen s_bodyvar mk_reached].
+  rewrite P3. unfold stored. cbn [ran s_buf mk_reached]. auto.
+Qed.
+
+(* ---------- ProcessPartial: whole runs ---------- *)
+(* buffer contents at the moment the body phase is evaluated: at the first write that reaches the
+   limit (the first limit bytes) or at the first explicit call (everything so far) *)
+Fixpoint pp_trigger (lim : Z) (acc : bytes) (ks : list tb_call) : option bytes :=
+  match ks with
+  | [] => None
+  | k :: r =>
+    if is_write k then
+      let acc' := acc ++ call_data k in
+      if lim <=? blen acc' then Some (firstn (Z.to_nat lim) acc') else pp_trigger lim acc' r
+    else Some acc
+  end.
+
+Lemma pp_gen c :
+  wf_cfg c -> active c -> c_action c = ProcessPartial ->
+  forall ks s, tinv c s -> calls_ok ks ->
+  let s' := tb_final c s ks in
+  tinv c s'
+  /\ stored s' = firstn (Z.to_nat (L c)) (stored s ++ supplied ks)
+  /\ s_dataerr s' = s_dataerr s || (L c <=? slen s + blen (supplied ks))
+  /\ (s_phase s <> hdr_phase (c_dir c) -> ghost_eq s s')
+  /\ (pending c s -> slen s < L c ->
+      match pp_trigger (L c) (stored s) ks with
+      | Some x => s_phase s' = body_phase (c_dir c) /\ s_runs s' = 1%nat /\ s_intr s' = deny_intr c
+                  /\ s_seen s' = Some (var_after c (s_bodyvar s) x)
+                  /\ s_bodyvar s' = var_after c (s_bodyvar s) x
+      | None => pending c s' /\ s_bodyvar s' = s_bodyvar s /\ slen s' < L c
+      end).
+Proof.
+  intros W A HP. induction ks as [|k ks IH]; intros s Ti Hok.
+  - cbn [tb_final tb_run fst supplied map concat pp_trigger]. rewrite app_nil_r.
+    pose proof (tinv_len c s Ti) as [Hsl Hs0]. destruct Ti as (Hi & Hl & Hle & Hd).
+    pose proof (conj Hi (conj Hl (conj Hle Hd)) : tinv c s) as Ti.
+    split; [exact Ti|]. split. { symmetry. apply firstn_short_app. unfold blen in *. lia. }
+    split. { rewrite blen_nil, Z.add_0_r. destruct (Z.eq_dec (slen s) (L c)) as [E|E].
+             - rewrite (Hd E). reflexivity.
+             - replace (L c <=? slen s) with false by lia. rewrite orb_false_r. reflexivity. }
+    split. { intros _. apply ghost_eq_refl. }
+    intros P Hlt. auto.
+  - inversion Hok as [|? ? [Hb Hr] Hok']; subst.
+    rewrite tb_final_cons. pose proof (pp_step c s k W A HP Ti Hb Hr) as Hst. cbv zeta in Hst.
+    set (s1 := fst (tb_step c s k)) in *. destruct Hst as (Ti1 & Hs1 & Hd1 & Hg1 & Hp1).
+    specialize (IH s1 Ti1 Hok'). cbv zeta in IH. set (s' := tb_final c s1 ks) in *.
+    destruct IH as (Ti' & Hs' & Hd' & Hg' & Hp').
+    pose proof (tinv_len c s Ti) as [Hsl Hs0]. pose proof (tinv_len c s1 Ti1) as [Hsl1 Hs10].
+    pose proof Ti as (Hi & Hl & Hle & Hdd).
+    assert (HLnat : Z.of_nat (Z.to_nat (L c)) = L c) by (destruct W as (? & ? & ?); unfold L; lia).
+    pose proof (blen_nonneg (call_data k)) as Hk0. pose proof (blen_nonneg (supplied ks)) as Hks0.
+    assert (Hlen1 : slen s1 = Z.min (L c) (slen s + blen (call_data k))).
+    { rewrite Hsl1, Hs1, blen_firstn_Z, blen_app. lia. }
+    split; [exact Ti'|]. split.
+    { rewrite Hs', Hs1, supplied_cons, app_assoc. apply firstn_firstn_app. }
+    split.
+    { rewrite Hd', Hd1, supplied_cons, blen_app, Hlen1.
+      destruct (is_write k) eqn:Hw.
+      - cbn [andb]. destruct (L c <=? slen s + blen (call_data k)) eqn:E.
+        + rewrite orb_true_r. cbn [orb]. symmetry. apply orb_true_iff. right. lia.
+        + rewrite orb_false_r. f_equal. lia.
+      - cbn [andb]. rewrite orb_false_r. destruct k; try discriminate. cbn [call_data]. rewrite blen_nil. f_equal. lia. }
+    split.
+    { intros Hne. specialize (Hg1 Hne). apply (ghost_eq_trans _ _ _ Hg1). apply Hg'.
+      destruct Hg1 as (E & _). rewrite E. exact Hne. }
+    intros P Hlt. specialize (Hp1 P Hlt). cbn [pp_trigger]. unfold triggers in Hp1.
+    destruct (is_write k) eqn:Hw; cbn [negb orb] in Hp1.
+    + rewrite blen_app, <- Hsl.
+      destruct (L c <=? slen s + blen (call_data k)) eqn:E.
+      * destruct Hp1 as (Q1 & Q2 & Q3 & Q4 & Q5).
+        assert (Hne : s_phase s1 <> hdr_phase (c_dir c)) by (rewrite Q1; apply hdr_body_phase).
+        destruct (Hg' Hne) as (G1 & G2 & G3 & G4 & G5). rewrite <- Hs1.
+        rewrite G1, G2, G3, G4, G5. auto.
+      * destruct Hp1 as (Q1 & Q2 & Q3). specialize (Hp' Q1 Q3).
+        assert (stored s1 = stored s ++ call_data k) as E1.
+        { rewrite Hs1. apply firstn_short_app. rewrite app_length. unfold blen in *. lia. }
+        rewrite E1, Q2 in Hp'. exact Hp'.
+    + destruct Hp1 as (Q1 & Q2 & Q3 & Q4 & Q5).
+      assert (Hne : s_phase s1 <> hdr_phase (c_dir c)) by (rewrite Q1; apply hdr_body_phase).
+      destruct (Hg' Hne) as (G1 & G2 & G3 & G4 & G5).
+      assert (stored s1 = stored s) as E1.
+      { rewrite Hs1. destruct k; try discriminate. cbn [call_data]. rewrite app_nil_r.
+        apply firstn_short_app. unfold blen in *. lia. }
+      rewrite E1 in *. rewrite G1, G2, G3, G4, G5. auto.
+Qed.
+
+Lemma pp_trigger_writes lim ws : Forall (fun k => is_write k = true) ws -> forall acc,
+  blen acc < lim ->
+  pp_trigger lim acc ws =
+  if lim <=? blen (acc ++ supplied ws) then Some (firstn (Z.to_nat lim) (acc ++ supplied ws)) else None.
+Proof.
+  induction 1 as [|k ws Hk Hws IH]; intros acc Hacc.
+  - cbn [pp_trigger supplied map concat]. rewrite app_nil_r. replace (lim <=? blen acc) with false by lia. reflexivity.
+  - cbn [pp_trigger]. rewrite Hk. rewrite supplied_cons, app_assoc.
+    destruct (lim <=? blen (acc ++ call_data k)) eqn:E.
+    + replace (lim <=? blen ((acc ++ call_data k) ++ supplied ws)) with true
+        by (rewrite blen_app; pose proof (blen_nonneg (supplied ws)); lia).
+      f_equal. rewrite (firstn_app (Z.to_nat lim) (acc ++ call_data k)).
+      replace (Z.to_nat lim - length (acc ++ call_data k))%nat with 0%nat by (unfold blen in *; lia).
+      cbn [firstn]. rewrite app_nil_r. reflexivity.
+    + apply IH. lia.
+Qed.
+
+Lemma pp_trigger_app_some lim a b : forall acc x,
+  pp_trigger lim acc a = Some x -> pp_trigger lim acc (a ++ b) = Some x.
+Proof.
+  induction a as [|k a IH]; intros acc x H; [discriminate|].
+  cbn [pp_trigger app] in *. destruct (is_write k); [|exact H].
+  destruct (lim <=? blen (acc ++ call_data k)); [exact H|]. apply IH. exact H.
+Qed.
+
+Lemma pp_trigger_app_none lim a b : Forall (fun k => is_write k = true) a -> forall acc,
+  pp_trigger lim acc a = None -> pp_trigger lim acc (a ++ b) = pp_trigger lim (acc ++ supplied a) b.
+Proof.
+  induction 1 as [|k a Hk Ha IH]; intros acc H.
+  - cbn. rewrite app_nil_r. reflexivity.
+  - cbn [pp_trigger app] in *. rewrite Hk in *. rewrite supplied_cons, app_assoc.
+    destruct (lim <=? blen (acc ++ call_data k)); [discriminate|]. apply IH. exact H.
+Qed.
+
+(* ---------- returned values of one write call (both actions) ---------- *)
+Lemma step_ret c s k :
+  wf_cfg c -> active c -> tinv c s -> is_write k = true -> realistic k ->
+  let '(s1, r) := tb_step c s k in
+  r_err r = false /\ r_panic r = false /\
+  r_n r = match c_action c with
+          | ProcessPartial => slen s1 - slen s
+          | Reject => if L c <=? slen s + blen (call_data k) then 0 else blen (call_data k)
+          end.
+Proof.
+  intros W A Ti Hw Hr. pose proof (tinv_len c s Ti) as [Hsl Hs0]. pose proof Ti as (Hi & Hl & Hle & Hd).
+  pose proof (blen_nonneg (call_data k)) as Hk0.
+  destruct (Z.eq_dec (slen s) (L c)) as [Hfull|Hnf].
+  { rewrite (step_full c s k A Ti Hw Hfull). cbn [mk_ret r_err r_panic r_n]. repeat split.
+    destruct (c_action c); [|lia]. replace (L c <=? slen s + blen (call_data k)) with true by lia. reflexivity. }
+  destruct (Z.lt_ge_cases (slen s + blen (call_data k)) (L c)) as [Hfit|Hreach].
+  { destruct (step_fits c s k W A Ti Hw Hr Hfit) as (b' & Hst & Hc & Hlen & Hi'). rewrite Hst.
+    cbn [mk_ret r_err r_panic r_n]. repeat split.
+    replace (L c <=? slen s + blen (call_data k)) with false by lia. destruct (c_action c); [reflexivity|].
+    unfold slen in *. cbn [set_buf s_buf]. lia. }
+  assert (Hlt : slen s < L c) by lia.
+  destruct (step_reaches c s k W A Ti Hw Hr Hlt Hreach) as (b' & Hi' & Hst).
+  replace (L c <=? slen s + blen (call_data k)) with true by lia.
+  destruct (c_action c).
+  - destruct Hst as (_ & Hst). rewrite Hst. unfold set_limit_intr. destruct (s_intr (mk_reached s b')); cbn; auto.
+  - destruct Hst as (Hc & Hlen & Hst). rewrite Hst. cbn [mk_ret r_err r_panic r_n]. repeat split.
+    destruct (process_keeps c (mk_reached s b')) as (B1 & _). unfold slen in *. rewrite B1. cbn [mk_reached s_buf]. lia.
+Qed.
+
+(* ---------- Reject: one write call ---------- *)
+Definition status_after (c : tb_cfg) (s : tb_st) : option Z :=
+  match s_intr s with Some i => Some i | None => Some (limit_status (c_dir c)) end.
+Definition ghost_fixed (s s' : tb_st) : Prop :=
+  s_phase s' = s_phase s /\ s_runs s' = s_runs s /\ s_seen s' = s_seen s /\ s_bodyvar s' = s_bodyvar s.
+
+Lemma rj_step c s k :
+  wf_cfg c -> active c -> c_action c = Reject -> tinv c s -> is_write k = true -> realistic k ->
+  (slen s = L c -> s_intr s <> None) ->
+  let s1 := fst (tb_step c s k) in let r := snd (tb_step c s k) in
+  tinv c s1 /\ ghost_fixed s s1 /\ r_intr r = s_intr s1 /\ (slen s1 = L c -> s_intr s1 <> None)
+  /\ (slen s + blen (call_data k) < L c ->
+        stored s1 = stored s ++ call_data k /\ s_intr s1 = s_intr s /\ s_dataerr s1 = s_dataerr s)
+  /\ (L c <= slen s + blen (call_data k) ->
+        s_intr s1 = status_after c s /\ s_dataerr s1 = true
+        /\ stored s1 = if (slen s <? L c) && is_unknown k
+                       then firstn (Z.to_nat (L c)) (stored s ++ call_data k) else stored s).
+Proof.
+  intros W A HR Ti Hw Hr Hfi. pose proof (tinv_len c s Ti) as [Hsl Hs0]. pose proof Ti as (Hi & Hl & Hle & Hd).
+  pose proof (blen_nonneg (call_data k)) as Hk0.
+  destruct (Z.eq_dec (slen s) (L c)) as [Hfull|Hnf].
+  { rewrite (step_full c s k A Ti Hw Hfull). rewrite HR. cbn [fst snd mk_ret r_intr].
+    split; [exact Ti|]. split; [repeat split|]. split; [reflexivity|]. split; [exact Hfi|].
+    split; [intros; lia|]. intros _. replace (slen s <? L c) with false by lia. cbn [andb].
+    split; [|split; [apply Hd; exact Hfull | reflexivity]].
+    unfold status_after. specialize (Hfi Hfull). destruct (s_intr s); [reflexivity | congruence]. }
+  destruct (Z.lt_ge_cases (slen s + blen (call_data k)) (L c)) as [Hfit|Hreach].
+  { destruct (step_fits c s k W A Ti Hw Hr Hfit) as (b' & Hst & Hc & Hlen & Hi'). rewrite Hst. cbn [fst snd mk_ret r_intr].
+    split. { unfold tinv, slen in *. cbn [set_buf s_buf s_limit s_dataerr].
+             split; [exact Hi'|]. split; [exact Hl|]. split; [lia|]. intros X. lia. }
+    split; [repeat split|]. split; [reflexivity|].
+    split. { unfold slen in *. cbn [set_buf s_buf]. intros X. lia. }
+    split; [|intros; lia]. intros _. unfold stored at 1. cbn [set_buf s_buf s_intr s_dataerr]. auto. }
+  assert (Hlt : slen s < L c) by lia.
+  destruct (step_reaches c s k W A Ti Hw Hr Hlt Hreach) as (b' & Hi' & Hst). rewrite HR in Hst.
+  destruct Hst as (Hb & Hst). rewrite Hst.
+  assert (Hsli : set_limit_intr c (mk_reached s b') =
+                 ({| s_buf := b'; s_limit := s_limit s; s_intr := status_after c s; s_dataerr := true;
+                     s_phase := s_phase s; s_runs := s_runs s; s_seen := s_seen s; s_bodyvar := s_bodyvar s |},
+                  mk_ret (status_after c s) 0 false)).
+  { unfold set_limit_intr, status_after, mk_reached. cbn [s_intr]. destruct (s_intr s); reflexivity. }
+  rewrite Hsli. cbn [fst snd mk_ret r_intr s_intr].
+  assert (Hlen' : bb_len b' <= L c /\ (bb_len b' = L c -> is_unknown k = true)).
+  { destruct (is_unknown k); [destruct Hb as (_ & E); lia|]. subst b'. unfold slen in *. lia. }
+  split. { unfold tinv, slen. cbn [s_buf s_limit s_dataerr]. split; [exact Hi'|]. split; [exact Hl|]. split; [lia|]. reflexivity. }
+  split; [repeat split|]. split; [reflexivity|].
+  split. { intros _. unfold status_after. destruct (s_intr s); discriminate. }
+  split; [intros; lia|]. intros _. split; [reflexivity|]. split; [reflexivity|].
+  unfold stored at 1. cbn [s_buf]. replace (slen s <? L c) with true by lia. cbn [andb].
+  destruct (is_unknown k); [|subst b'; reflexivity].
+  destruct Hb as (Hc & _). rewrite Hc. unfold reach_bytes.
+  assert (HLnat : Z.of_nat (Z.to_nat (L c)) = L c) by lia.
+  rewrite firstn_app_le by (unfold blen in *; lia). f_equal. f_equal. unfold blen in *. lia.
+Qed.
+
+
+(* ---------- runs from a fresh transaction whose headers phase has been evaluated ---------- *)
+Definition init (c : tb_cfg) : tb_st := tb_init c (hdr_phase (c_dir c)).
+
+Lemma init_facts c : wf_cfg c ->
+  tinv c (init c) /\ pending c (init c) /\ stored (init c) = [] /\ slen (init c) = 0 /\ s_bodyvar (init c) = []
+  /\ s_dataerr (init c) = false.
+Proof. intros W. split; [apply tinv_init; exact W|]. repeat split. Qed.
+
+Definition body_visible (c : tb_cfg) : Prop :=
+  match c_dir c with Req => c_bp c <> BPnone | Resp => c_processable c = true end.
+
+Lemma var_after_visible c x : c_access c = true -> body_visible c -> var_after c [] x = x.
+Proof.
+  intros Ha Hv. unfold var_after, var_cond, body_visible in *. rewrite Ha. destruct (c_dir c).
+  - destruct (blen x =? 0) eqn:E; cbn [negb andb].
+    + symmetry. apply blen_zero. lia.
+    + destruct (c_bp c); try reflexivity. congruence.
+  - rewrite Hv. reflexivity.
+Qed.
+
+Section PP.
+Variable c : tb_cfg.
+Hypothesis W : wf_cfg c.
+Hypothesis A : active c.
+Hypothesis HP : c_action c = ProcessPartial.
+
+Lemma Lpos : 0 < L c.
+Proof. destruct W as (? & ? & ?). unfold L. lia. Qed.
+
+Theorem pp_stored_prefix ks : calls_ok ks ->
+  stored (tb_final c (init c) ks) = firstn (Z.to_nat (L c)) (supplied ks)
+  /\ s_dataerr (tb_final c (init c) ks) = (L c <=? blen (supplied ks)).
+Proof.
+  intros Hok. destruct (init_facts c W) as (Ti & P & Hs & Hl & Hb & Hd).
+  destruct (pp_gen c W A HP ks (init c) Ti Hok) as (_ & H1 & H2 & _).
+  rewrite Hs in H1. rewrite Hd, Hl in H2. split; [exact H1 | exact H2].
+Qed.
+
+Theorem pp_phase_once ks : calls_ok ks ->
+  let s' := tb_final c (init c) ks in
+  match pp_trigger (L c) [] ks with
+  | Some x => s_runs s' = 1%nat /\ s_phase s' = body_phase (c_dir c) /\ s_intr s' = deny_intr c
+              /\ s_seen s' = Some (var_after c [] x) /\ s_bodyvar s' = var_after c [] x
+  | None => s_runs s' = 0%nat /\ s_phase s' = hdr_phase (c_dir c) /\ s_intr s' = None
+            /\ s_seen s' = None /\ s_bodyvar s' = []
+  end.
+Proof.
+  intros Hok. destruct (init_facts c W) as (Ti & P & Hs & Hl & Hb & Hd).
+  destruct (pp_gen c W A HP ks (init c) Ti Hok) as (_ & _ & _ & _ & H).
+  pose proof Lpos. specialize (H P ltac:(lia)). rewrite Hs, Hb in H. cbv zeta.
+  destruct (pp_trigger (L c) [] ks).
+  - tauto.
+  - destruct H as ((Q1 & Q2 & Q3 & Q4) & Q5 & _). auto.
+Qed.
+
+Lemma writes_ok_forall ws : writes_ok ws -> Forall (fun k => is_write k = true) ws.
+Proof. apply Forall_impl. tauto. Qed.
+
+(* the connector writes the body, then calls ProcessRequestBody/ProcessResponseBody: the phase is
+   evaluated exactly once, over exactly the first min(limit, size) bytes, whatever follows *)
+Theorem pp_explicit ws rest : writes_ok ws -> calls_ok rest ->
+  let s' := tb_final c (init c) (ws ++ ProcessBody :: rest) in
+  let x := firstn (Z.to_nat (L c)) (supplied ws) in
+  s_runs s' = 1%nat /\ s_seen s' = Some (var_after c [] x) /\ s_bodyvar s' = var_after c [] x
+  /\ s_phase s' = body_phase (c_dir c) /\ s_intr s' = deny_intr c.
+Proof.
+  intros Hw Hr. cbv zeta.
+  assert (Hok : calls_ok (ws ++ ProcessBody :: rest)).
+  { apply Forall_app. split; [apply writes_calls_ok; exact Hw|]. constructor; [|exact Hr].
+    split; [reflexivity|]. unfold realistic, max_int64, gib. cbn. lia. }
+  pose proof (pp_phase_once _ Hok) as H. cbv zeta in H.
+  assert (pp_trigger (L c) [] (ws ++ ProcessBody :: rest) = Some (firstn (Z.to_nat (L c)) (supplied ws))) as E.
+  { pose proof (pp_trigger_writes (L c) ws (writes_ok_forall ws Hw) [] ltac:(pose proof Lpos; cbn; lia)) as T.
+    cbn [app] in T. destruct (L c <=? blen (supplied ws)) eqn:El.
+    - apply pp_trigger_app_some. exact T.
+    - rewrite pp_trigger_app_none by (try apply writes_ok_forall; assumption).
+      cbn [app pp_trigger is_write]. f_equal. symmetry. apply firstn_all2. unfold blen in *. lia. }
+  rewrite E in H. tauto.
+Qed.
+
+(* the phase is evaluated by the write that reaches the limit, not before *)
+Theorem pp_at_limit ws rest : writes_ok ws -> calls_ok rest -> L c <= blen (supplied ws) ->
+  let s' := tb_final c (init c) (ws ++ rest) in
+  let x := firstn (Z.to_nat (L c)) (supplied ws) in
+  s_runs s' = 1%nat /\ s_seen s' = Some (var_after c [] x) /\ s_bodyvar s' = var_after c [] x
+  /\ blen x = L c.
+Proof.
+  intros Hw Hr Hl. cbv zeta.
+  assert (Hok : calls_ok (ws ++ rest)) by (apply Forall_app; split; [apply writes_calls_ok|]; assumption).
+  pose proof (pp_phase_once _ Hok) as H. cbv zeta in H.
+  pose proof (pp_trigger_writes (L c) ws (writes_ok_forall ws Hw) [] ltac:(pose proof Lpos; cbn; lia)) as T.
+  cbn [app] in T. replace (L c <=? blen (supplied ws)) with true in T by lia.
+  rewrite (pp_trigger_app_some _ _ rest _ _ T) in H.
+  repeat split; try tauto. rewrite blen_firstn_Z. pose proof Lpos. lia.
+Qed.
+
+Theorem pp_not_before ws : writes_ok ws -> blen (supplied ws) < L c ->
+  s_runs (tb_final c (init c) ws) = 0%nat /\ s_phase (tb_final c (init c) ws) = hdr_phase (c_dir c).
+Proof.
+  intros Hw Hl. pose proof (pp_phase_once _ (writes_calls_ok _ Hw)) as H. cbv zeta in H.
+  pose proof (pp_trigger_writes (L c) ws (writes_ok_forall ws Hw) [] ltac:(pose proof Lpos; cbn; lia)) as T.
+  cbn [app] in T. replace (L c <=? blen (supplied ws)) with false in T by lia. rewrite T in H. tauto.
+Qed.
+
+(* once limit bytes are held, every further write is ignored: nothing stored, n = 0, no error, no
+   interruption returned by that call *)
+Theorem pp_later_ignored ks k : calls_ok ks -> is_write k = true -> L c <= blen (supplied ks) ->
+  tb_step c (tb_final c (init c) ks) k = (tb_final c (init c) ks, mk_ret None 0 false).
+Proof.
+  intros Hok Hw Hl. destruct (init_facts c W) as (Ti & _).
+  destruct (pp_gen c W A HP ks (init c) Ti Hok) as (Ti' & _).
+  destruct (pp_stored_prefix ks Hok) as (Hs & _).
+  pose proof (tinv_len c _ Ti') as [Hsl _].
+  rewrite (step_full c _ k A Ti' Hw); [rewrite HP; reflexivity|].
+  rewrite Hsl, Hs, blen_firstn_Z. pose proof Lpos. lia.
+Qed.
+
+(* n is the number of bytes this call added; never an error, never a panic *)
+Theorem pp_ret ks k : calls_ok ks -> is_write k = true -> realistic k ->
+  let s := tb_final c (init c) ks in
+  let '(s1, r) := tb_step c s k in
+  r_err r = false /\ r_panic r = false /\ r_n r = blen (stored s1) - blen (stored s).
+Proof.
+  intros Hok Hw Hr. cbv zeta. destruct (init_facts c W) as (Ti & _).
+  destruct (pp_gen c W A HP ks (init c) Ti Hok) as (Ti' & _).
+  pose proof (step_ret c _ k W A Ti' Hw Hr) as H.
+  pose proof (pp_step c _ k W A HP Ti' ltac:(destruct k; try discriminate; reflexivity) Hr) as (Ti1 & _).
+  destruct (tb_step c (tb_final c (init c) ks) k) as [s1 r]. cbn [fst] in Ti1.
+  rewrite HP in H. destruct H as (H1 & H2 & H3). repeat split; try assumption.
+  rewrite H3. destruct (tinv_len c _ Ti') as [E1 _]. destruct (tinv_len c _ Ti1) as [E2 _]. lia.
+Qed.
+End PP.
+
+
+Section RJ.
+Variable c : tb_cfg.
+Hypothesis W : wf_cfg c.
+Hypothesis A : active c.
+Hypothesis HR : c_action c = Reject.
+
+Definition no_unknown (ws : list tb_call) : bool := forallb (fun k => negb (is_unknown k)) ws.
+
+Definition rj_inv (ws : list tb_call) (s : tb_st) : Prop :=
+  tinv c s
+  /\ (s_phase s = hdr_phase (c_dir c) /\ s_runs s = 0%nat /\ s_seen s = None /\ s_bodyvar s = [])
+  /\ (slen s = L c -> s_intr s <> None)
+  /\ ((blen (supplied ws) < L c /\ s_intr s = None /\ stored s = supplied ws /\ s_dataerr s = false)
+      \/ (L c <= blen (supplied ws) /\ s_intr s = Some (limit_status (c_dir c)) /\ s_dataerr s = true))
+  /\ (no_unknown ws = true -> slen s < L c).
+
+Lemma tb_final_single s k : tb_final c s [k] = fst (tb_step c s k).
+Proof. unfold tb_final. cbn [tb_run]. destruct (tb_step c s k). reflexivity. Qed.
+
+Lemma writes_ok_app a b : writes_ok (a ++ b) <-> writes_ok a /\ writes_ok b.
+Proof. apply Forall_app. Qed.
+
+Lemma rj_run ws : writes_ok ws -> rj_inv ws (tb_final c (init c) ws).
+Proof.
+  induction ws as [|k ws IH] using rev_ind; intros Hw.
+  - destruct (init_facts c W) as (Ti & (P1 & P2 & P3 & P4) & Hs & Hl & Hb & Hd). pose proof (Lpos c W).
+    cbn [tb_final tb_run fst]. split; [exact Ti|]. split; [auto|]. split; [intros; lia|].
+    split; [left; cbn; auto|]. intros _. lia.
+  - apply writes_ok_app in Hw. destruct Hw as [Hw Hk]. inversion Hk as [|? ? [Hkw Hkr] _]; subst.
+    specialize (IH Hw). destruct IH as (Ti & (G1 & G2 & G3 & G4) & Hfi & Hdis & Hnu).
+    rewrite tb_final_app. set (s := tb_final c (init c) ws) in *.
+    rewrite tb_final_single. destruct (tb_step c s k) as [s1 r] eqn:Est. cbn [fst].
+    pose proof (rj_step c s k W A HR Ti Hkw Hkr Hfi) as H. cbv zeta in H. rewrite Est in H. cbn [fst snd] in H.
+    destruct H as (Ti1 & (F1 & F2 & F3 & F4) & Hri & Hfi1 & Hfit & Hrch).
+    pose proof (tinv_len c s Ti) as [Hsl Hs0]. pose proof (tinv_len c s1 Ti1) as [Hsl1 Hs10].
+    pose proof (blen_nonneg (call_data k)) as Hk0.
+    assert (Hsup : supplied (ws ++ [k]) = supplied ws ++ call_data k).
+    { rewrite supplied_app. cbn. rewrite app_nil_r. reflexivity. }
+    split; [exact Ti1|]. split. { rewrite F1, F2, F3, F4. auto. } split; [exact Hfi1|].
+    split.
+    + rewrite Hsup, blen_app. destruct Hdis as [(D1 & D2 & D3 & D4)|(D1 & D2 & D3)].
+      * assert (slen s = blen (supplied ws)) as E by (rewrite Hsl, D3; reflexivity).
+        destruct (Z.lt_ge_cases (slen s + blen (call_data k)) (L c)) as [Hlt|Hge].
+        -- destruct (Hfit Hlt) as (X1 & X2 & X3). left. rewrite X1, X2, X3, D3. repeat split; try assumption. lia.
+        -- destruct (Hrch Hge) as (X1 & X2 & X3). right. rewrite X1, X2. unfold status_after. rewrite D2.
+           repeat split. lia.
+      * right. split; [lia|].
+        destruct (Z.lt_ge_cases (slen s + blen (call_data k)) (L c)) as [Hlt|Hge].
+        -- destruct (Hfit Hlt) as (X1 & X2 & X3). rewrite X2, X3. auto.
+        -- destruct (Hrch Hge) as (X1 & X2 & X3). rewrite X1, X2. unfold status_after. rewrite D2. auto.
+    + unfold no_unknown. rewrite forallb_app. intros Hn. apply andb_true_iff in Hn. destruct Hn as [Hn1 Hn2].
+      cbn in Hn2. rewrite andb_true_r in Hn2. specialize (Hnu Hn1).
+      destruct (Z.lt_ge_cases (slen s + blen (call_data k)) (L c)) as [Hlt|Hge].
+      * destruct (Hfit Hlt) as (X1 & _). rewrite Hsl1, X1, blen_app. lia.
+      * destruct (Hrch Hge) as (_ & _ & X3). rewrite Hsl1, X3.
+        destruct (is_unknown k); [discriminate|]. rewrite andb_false_r. lia.
+Qed.
+
+(* below the limit everything supplied is stored, nothing is refused *)
+Theorem rj_below ws : writes_ok ws -> blen (supplied ws) < L c ->
+  let s := tb_final c (init c) ws in
+  stored s = supplied ws /\ s_intr s = None /\ s_dataerr s = false.
+Proof.
+  intros Hw Hl. destruct (rj_run ws Hw) as (_ & _ & _ & [(D1 & D2 & D3 & D4)|(D1 & _)] & _); [auto | lia].
+Qed.
+
+(* a call is answered with the rejection (413 / 500) exactly when the cumulative size supplied up to
+   and including it reaches the limit - the first such call and every later one *)
+Theorem rj_exact ws k : writes_ok (ws ++ [k]) ->
+  let r := snd (tb_step c (tb_final c (init c) ws) k) in
+  r_intr r = (if L c <=? blen (supplied (ws ++ [k])) then Some (limit_status (c_dir c)) else None)
+  /\ r_err r = false /\ r_panic r = false
+  /\ (blen (supplied ws) < L c ->
+      r_n r = if L c <=? blen (supplied (ws ++ [k])) then 0 else blen (call_data k)).
+Proof.
+  intros Hw. cbv zeta. pose proof (rj_run _ Hw) as H1.
+  apply writes_ok_app in Hw. destruct Hw as [Hw Hk]. inversion Hk as [|? ? [Hkw Hkr] _]; subst.
+  pose proof (rj_run _ Hw) as (Ti & _ & Hfi & Hdis & _).
+  rewrite tb_final_app in H1. set (s := tb_final c (init c) ws) in *. rewrite tb_final_single in H1.
+  pose proof (rj_step c s k W A HR Ti Hkw Hkr Hfi) as H. cbv zeta in H.
+  pose proof (step_ret c s k W A Ti Hkw Hkr) as H2.
+  destruct (tb_step c s k) as [s1 r]. cbn [fst snd] in *. rewrite HR in H2.
+  destruct H as (_ & _ & Hri & _). destruct H1 as (_ & _ & _ & Hdis1 & _). destruct H2 as (E1 & E2 & E3).
+  split. { rewrite Hri. destruct Hdis1 as [(D1 & D2 & _)|(D1 & D2 & _)]; rewrite D2.
+           - replace (L c <=? blen (supplied (ws ++ [k]))) with false by lia. reflexivity.
+           - replace (L c <=? blen (supplied (ws ++ [k]))) with true by lia. reflexivity. }
+  split; [exact E1|]. split; [exact E2|]. intros Hb. rewrite E3.
+  destruct Hdis as [(D1 & D2 & D3 & D4)|(D1 & _)]; [|lia].
+  pose proof (tinv_len c s Ti) as [Hsl _]. rewrite supplied_app, blen_app. cbn [supplied map concat]. rewrite app_nil_r.
+  rewrite Hsl, D3. reflexivity.
+Qed.
+
+(* at the first refusal: nothing of the refusing chunk is stored by a slice or known-length write; a
+   reader of unknown length has been copied up to the limit *)
+Theorem rj_first_refusal ws k : writes_ok (ws ++ [k]) ->
+  blen (supplied ws) < L c -> L c <= blen (supplied (ws ++ [k])) ->
+  let s1 := tb_final c (init c) (ws ++ [k]) in
+  stored s1 = (if is_unknown k then firstn (Z.to_nat (L c)) (supplied (ws ++ [k])) else supplied ws)
+  /\ s_intr s1 = Some (limit_status (c_dir c)) /\ s_dataerr s1 = true.
+Proof.
+  intros Hw Hb Hge. cbv zeta. pose proof (rj_run _ Hw) as H1.
+  apply writes_ok_app in Hw. destruct Hw as [Hw Hk]. inversion Hk as [|? ? [Hkw Hkr] _]; subst.
+  pose proof (rj_run _ Hw) as (Ti & _ & Hfi & Hdis & _).
+  rewrite tb_final_app in *. set (s := tb_final c (init c) ws) in *. rewrite tb_final_single in *.
+  pose proof (rj_step c s k W A HR Ti Hkw Hkr Hfi) as H. cbv zeta in H.
+  destruct (tb_step c s k) as [s1 r]. cbn [fst snd] in *.
+  destruct H as (_ & _ & _ & _ & _ & Hrch).
+  destruct Hdis as [(D1 & D2 & D3 & D4)|(D1 & _)]; [|lia].
+  pose proof (tinv_len c s Ti) as [Hsl _].
+  assert (Hsup : supplied (ws ++ [k]) = supplied ws ++ call_data k).
+  { rewrite supplied_app. cbn. rewrite app_nil_r. reflexivity. }
+  rewrite Hsup, blen_app in Hge. destruct Hrch as (X1 & X2 & X3); [rewrite Hsl, D3; lia|].
+  split. { rewrite X3. replace (slen s <? L c) with true by (rewrite Hsl, D3; lia). cbn [andb].
+           rewrite Hsup, D3. reflexivity. }
+  split; [|exact X2]. rewrite X1. unfold status_after. rewrite D2. reflexivity.
+Qed.
+
+(* whatever the connector does after a refusal: never more than limit bytes stored (strictly fewer when
+   no unknown-length reader was used), the rejection stays, the data-error flag tells the limit was reached *)
+Theorem rj_bounds ws : writes_ok ws ->
+  let s := tb_final c (init c) ws in
+  blen (stored s) <= L c
+  /\ (no_unknown ws = true -> blen (stored s) < L c)
+  /\ s_intr s = (if L c <=? blen (supplied ws) then Some (limit_status (c_dir c)) else None)
+  /\ s_dataerr s = (L c <=? blen (supplied ws))
+  /\ s_runs s = 0%nat.
+Proof.
+  intros Hw. cbv zeta. destruct (rj_run ws Hw) as (Ti & (_ & G2 & _) & _ & Hdis & Hnu).
+  pose proof (tinv_len c _ Ti) as [Hsl _]. destruct Ti as (_ & _ & Hle & _).
+  split; [lia|]. split; [intros X; specialize (Hnu X); lia|].
+  destruct Hdis as [(D1 & D2 & D3 & D4)|(D1 & D2 & D3)].
+  - replace (L c <=? blen (supplied ws)) with false by lia. auto.
+  - replace (L c <=? blen (supplied ws)) with true by lia. auto.
+Qed.
+
+(* the explicit body phase after an accepted body sees exactly the supplied bytes *)
+Theorem rj_then_process ws : writes_ok ws -> blen (supplied ws) < L c ->
+  let s' := fst (tb_step c (tb_final c (init c) ws) ProcessBody) in
+  s_runs s' = 1%nat /\ s_seen s' = Some (var_after c [] (supplied ws))
+  /\ s_bodyvar s' = var_after c [] (supplied ws) /\ stored s' = supplied ws.
+Proof.
+  intros Hw Hl. cbv zeta. destruct (rj_run ws Hw) as (Ti & (G1 & G2 & G3 & G4) & _ & Hdis & _).
+  destruct Hdis as [(D1 & D2 & D3 & D4)|(D1 & _)]; [|lia].
+  destruct A as [He Ha]. destruct Ti as (Hi & _).
+  cbn [tb_step]. rewrite (process_runs c _ He Hi D2 G1). cbn [fst ran s_runs s_seen s_bodyvar].
+  rewrite G2, G4, D3. unfold stored. cbn [ran s_buf]. fold (stored (tb_final c (init c) ws)). rewrite D3. auto.
+Qed.
+End RJ.
+
+(* what the code does when a connector ignores a refusal: a later chunk that fits is stored, so the
+   stored bytes are no longer a prefix of what was supplied (outside what C10 promises) *)
+Definition demo_cfg : tb_cfg :=
+  {| c_dir := Req; c_opt := {| bo_limit := 4; bo_mem := 2 |}; c_action := Reject; c_access := true;
+     c_engine_on := true; c_bp := BPraw; c_processable := true; c_deny := false |}.
+Lemma rj_after_ignored_refusal_stores :
+  exists ws, writes_ok ws /\
+    stored (tb_final demo_cfg (init demo_cfg) ws) = [97; 98; 102]%N
+    /\ supplied ws = [97; 98; 99; 100; 101; 102]%N.
+Proof.
+  exists [WriteSlice [97; 98]%N; WriteSlice [99; 100; 101]%N; WriteSlice [102]%N].
+  split; [|split; reflexivity].
+  repeat constructor; unfold realistic, max_int64, gib; cbn; lia.
+Qed.
+
+
+(* ---------- no call ever slices out of range (b[:writingBytes]), whatever ctl did to the limit ---------- *)
+Lemma step_no_panic c s k : r_panic (snd (tb_step c s k)) = false.
+Proof.
+  destruct k as [d|kn rs d| |z]; cbn [tb_step].
+  - unfold write_slice.
+    destruct (negb (c_engine_on c)); [reflexivity|]. destruct (negb (c_access c)); [reflexivity|].
+    destruct (s_limit s =? bb_len (s_buf s)); [destruct (c_action c); reflexivity|].
+    destruct (overflow_guard c s (blen d)); [reflexivity|].
+    pose proof (blen_nonneg d) as Hd.
+    destruct (bb_len (s_buf s) + blen d >=? s_limit s) eqn:E.
+    + destruct (c_action c).
+      * unfold set_limit_intr. destruct (s_intr (set_dataerr s)); reflexivity.
+      * assert ((Z.max 0 (s_limit s - bb_len (s_buf s)) <? 0) || (Z.max 0 (s_limit s - bb_len (s_buf s)) >? blen d) = false) as -> by lia.
+        destruct (bb_write _ _ _) as [[b' w] err]. destruct err; [reflexivity|].
+        destruct (process_body _ _). reflexivity.
+    + assert ((blen d <? 0) || (blen d >? blen d) = false) as -> by lia.
+      destruct (c_action c); destruct (bb_write _ _ _) as [[b' w] err]; destruct err; reflexivity.
+  - unfold read_from.
+    destruct (negb (c_engine_on c)); [reflexivity|]. destruct (negb (c_access c)); [reflexivity|].
+    destruct (s_limit s =? bb_len (s_buf s)); [destruct (c_action c); reflexivity|].
+    destruct (kn && overflow_guard c s (blen d)); [reflexivity|].
+    destruct (kn && (bb_len (s_buf s) + blen d >=? s_limit s)); destruct (c_action c);
+      try (unfold set_limit_intr; destruct (s_intr (set_dataerr s)); reflexivity);
+      destruct (bb_copyN _ _ _ _ _) as [[b' w] err]; destruct err; try reflexivity;
+      destruct (bb_len b' =? s_limit s); cbn [orb];
+      try (unfold set_limit_intr; match goal with |- context [s_intr ?x] => destruct (s_intr x) end; reflexivity);
+      try (destruct (process_body _ _); reflexivity); reflexivity.
+  - destruct (process_body c s). reflexivity.
+  - reflexivity.
+Qed.
+
+Theorem run_no_panic c ks : forall s, Forall (fun r => r_panic r = false) (tb_rets c s ks).
+Proof.
+  induction ks as [|k ks IH]; intros s; unfold tb_rets in *; cbn [tb_run].
+  - constructor.
+  - pose proof (step_no_panic c s k) as H. destruct (tb_step c s k) as [s1 x]. specialize (IH s1).
+    destruct (tb_run c s1 ks) as [s2 xs]. cbn [snd] in *. constructor; assumption.
+Qed.
+
+(* ---------- the memory limit is invisible: memory-held and spilled runs agree ---------- *)
+Definition buf_equiv (o1 o2 : bbopt) (b1 b2 : bbuf) : Prop :=
+  bb_contents b1 = bb_contents b2 /\ bb_len b1 = bb_len b2 /\ bb_inv o1 b1 /\ bb_inv o2 b2.
+
+Lemma bb_write_sim o1 o2 b1 b2 d : bo_limit o1 = bo_limit o2 -> buf_equiv o1 o2 b1 b2 ->
+  let '(b1', n1, e1) := bb_write o1 b1 d in let '(b2', n2, e2) := bb_write o2 b2 d in
+  n1 = n2 /\ e1 = e2 /\ buf_equiv o1 o2 b1' b2'.
+Proof.
+  intros Hl (Hc & Hn & I1 & I2).
+  pose proof (bb_write_spec o1 b1 d I1) as S1. pose proof (bb_write_spec o2 b2 d I2) as S2.
+  destruct (bb_write o1 b1 d) as [[b1' n1] e1]. destruct (bb_write o2 b2 d) as [[b2' n2] e2].
+  destruct S1 as (E1 & F1 & K1). destruct S2 as (E2 & F2 & K2).
+  assert (e1 = e2) as He. { rewrite E1, E2. unfold bb_write_fails. rewrite Hl, Hn. reflexivity. }
+  clear E1 E2. destruct e1, e2; try discriminate.
+  - destruct (F1 eq_refl) as [-> ->]. destruct (F2 eq_refl) as [-> ->]. split; [reflexivity|]. split; [reflexivity|]. unfold buf_equiv. auto.
+  - destruct (K1 eq_refl) as (A1 & A2 & A3 & A4). destruct (K2 eq_refl) as (B1 & B2 & B3 & B4).
+    split; [congruence|]. split; [reflexivity|]. unfold buf_equiv. split; [congruence|]. split; [congruence|]. auto.
+Qed.
+
+Lemma bb_copy_loop_sim o1 o2 rs size : bo_limit o1 = bo_limit o2 ->
+  forall fuel b1 b2 src left written, buf_equiv o1 o2 b1 b2 ->
+  let '(b1', n1, e1) := bb_copy_loop fuel o1 b1 src rs size left written in
+  let '(b2', n2, e2) := bb_copy_loop fuel o2 b2 src rs size left written in
+  n1 = n2 /\ e1 = e2 /\ buf_equiv o1 o2 b1' b2'.
+Proof.
+  intros Hl. induction fuel as [|fuel IH]; intros b1 b2 src left written Hb; cbn [bb_copy_loop]; [auto|].
+  destruct (left <=? 0); [auto|].
+  set (want := if Nat.eqb rs 0 then _ else _).
+  destruct (firstn want src) as [|x p] eqn:Ep; [auto|]. rewrite <- Ep.
+  pose proof (bb_write_sim o1 o2 b1 b2 (firstn want src) Hl Hb) as H.
+  destruct (bb_write o1 b1 (firstn want src)) as [[b1' n1] e1]. destruct (bb_write o2 b2 (firstn want src)) as [[b2' n2] e2].
+  destruct H as (-> & -> & Hb'). destruct e2; [auto|]. apply IH. exact Hb'.
+Qed.
+
+(* same configuration except for the memory limit *)
+Definition with_mem (c : tb_cfg) (m : Z) : tb_cfg :=
+  {| c_dir := c_dir c; c_opt := {| bo_limit := bo_limit (c_opt c); bo_mem := m |}; c_action := c_action c;
+     c_access := c_access c; c_engine_on := c_engine_on c; c_bp := c_bp c; c_processable := c_processable c;
+     c_deny := c_deny c |}.
+
+Definition st_equiv (o1 o2 : bbopt) (s1 s2 : tb_st) : Prop :=
+  buf_equiv o1 o2 (s_buf s1) (s_buf s2) /\ s_limit s1 = s_limit s2 /\ s_intr s1 = s_intr s2
+  /\ s_dataerr s1 = s_dataerr s2 /\ s_phase s1 = s_phase s2 /\ s_runs s1 = s_runs s2
+  /\ s_seen s1 = s_seen s2 /\ s_bodyvar s1 = s_bodyvar s2.
+
+Section SIM.
+Variable c : tb_cfg.
+Variable m : Z.
+Let c2 := with_mem c m.
+Let o1 := c_opt c.
+Let o2 := c_opt c2.
+
+Ltac split_st s b l i de ph ru se bv := destruct s as [b l i de ph ru se bv].
+
+Lemma process_sim s1 s2 : st_equiv o1 o2 s1 s2 ->
+  st_equiv o1 o2 (fst (process_body c s1)) (fst (process_body c2 s2))
+  /\ snd (process_body c s1) = snd (process_body c2 s2).
+Proof.
+  destruct s1 as [b1 l1 i1 de1 ph1 ru1 se1 bv1]. destruct s2 as [b2 l2 i2 de2 ph2 ru2 se2 bv2].
+  intros (Hb & E). cbn [s_buf s_limit s_intr s_dataerr s_phase s_runs s_seen s_bodyvar] in *.
+  destruct E as (-> & -> & -> & -> & -> & -> & ->). pose proof Hb as (Hc & Hn & _).
+  unfold process_body, body_var_set. unfold c2. cbn [with_mem c_engine_on c_dir c_access c_bp c_processable c_deny
+     s_buf s_limit s_intr s_dataerr s_phase s_runs s_seen s_bodyvar].
+  rewrite <- Hn, <- Hc.
+  assert (T : forall x1 x2 (r1 r2 : option Z), s_buf x1 = b1 -> s_buf x2 = b2 -> r1 = r2 ->
+              (s_limit x1 = s_limit x2 /\ s_intr x1 = s_intr x2 /\ s_dataerr x1 = s_dataerr x2 /\ s_phase x1 = s_phase x2
+               /\ s_runs x1 = s_runs x2 /\ s_seen x1 = s_seen x2 /\ s_bodyvar x1 = s_bodyvar x2) ->
+              st_equiv o1 o2 (fst (x1, r1)) (fst (x2, r2)) /\ snd (x1, r1) = snd (x2, r2)).
+  { intros x1 x2 r1 r2 B1 B2 R E. cbn [fst snd]. split; [|exact R]. split; [rewrite B1, B2; exact Hb | exact E]. }
+  destruct (negb (c_engine_on c)); [apply T; cbn; tauto|].
+  destruct i2; [apply T; cbn; tauto|].
+  destruct (negb (ph2 =? hdr_phase (c_dir c))); apply T; cbn; tauto.
+Qed.
+
+Lemma set_limit_intr_sim s1 s2 : st_equiv o1 o2 s1 s2 ->
+  st_equiv o1 o2 (fst (set_limit_intr c s1)) (fst (set_limit_intr c2 s2))
+  /\ snd (set_limit_intr c s1) = snd (set_limit_intr c2 s2).
+Proof.
+  destruct s1 as [b1 l1 i1 de1 ph1 ru1 se1 bv1]. destruct s2 as [b2 l2 i2 de2 ph2 ru2 se2 bv2].
+  intros (Hb & E). cbn [s_buf s_limit s_intr s_dataerr s_phase s_runs s_seen s_bodyvar] in *.
+  destruct E as (-> & -> & -> & -> & -> & -> & ->).
+  unfold set_limit_intr. cbn [s_intr]. destruct i2; cbn [fst snd]; (split; [split; [exact Hb | cbn; tauto] | reflexivity]).
+Qed.
+
+Lemma st_equiv_dataerr s1 s2 : st_equiv o1 o2 s1 s2 -> st_equiv o1 o2 (set_dataerr s1) (set_dataerr s2).
+Proof. intros (Hb & E). split; [exact Hb|]. cbn. tauto. Qed.
+
+Lemma st_equiv_buf s1 s2 b1 b2 : st_equiv o1 o2 s1 s2 -> buf_equiv o1 o2 b1 b2 -> st_equiv o1 o2 (set_buf s1 b1) (set_buf s2 b2).
+Proof. intros (_ & E) Hb. split; [exact Hb|]. cbn. tauto. Qed.
+
+Ltac sim_write Hlim Hb :=
+  match goal with |- context [bb_write ?oa ?ba ?p] =>
+    match goal with |- context [bb_write ?ob ?bb p] =>
+      lazymatch oa with ob => fail | _ => idtac end;
+      let H := fresh "H" in
+      pose proof (bb_write_sim oa ob ba bb p Hlim Hb) as H;
+      destruct (bb_write oa ba p) as [[?b1' ?n1] ?e1]; destruct (bb_write ob bb p) as [[?b2' ?n2] ?e2];
+      destruct H as (-> & -> & ?Hb')
+    end
+  end.
+
+Ltac sim_process c c2 P :=
+  match goal with |- context [process_body c ?x] =>
+    match goal with |- context [process_body c2 ?y] =>
+      let P1 := fresh "P1" in let P2 := fresh "P2" in
+      pose proof (process_sim x y P) as (P1 & P2);
+      destruct (process_body c x) as [?x1 ?j1]; destruct (process_body c2 y) as [?x2 ?j2];
+      cbn [fst snd] in *; split; [exact P1 | destruct P1 as (_ & _ & -> & _); reflexivity]
+    end
+  end.
+
+Lemma step_sim s1 s2 k : st_equiv o1 o2 s1 s2 ->
+  st_equiv o1 o2 (fst (tb_step c s1 k)) (fst (tb_step c2 s2 k)) /\ snd (tb_step c s1 k) = snd (tb_step c2 s2 k).
+Proof.
+  intros He. pose proof He as (Hb & El & Ei & Ede & Eph & Eru & Ese & Ebv). pose proof Hb as (Hc & Hn & I1 & I2).
+  assert (Hlim : bo_limit o1 = bo_limit o2) by reflexivity.
+  destruct k as [d|kn rs d| |z]; cbn [tb_step].
+  - (* slice *)
+    unfold write_slice, overflow_guard.
+    change (c_engine_on c2) with (c_engine_on c). change (c_access c2) with (c_access c).
+    change (c_action c2) with (c_action c). change (c_dir c2) with (c_dir c).
+    rewrite <- El, <- Hn, <- Ei.
+    destruct (negb (c_engine_on c)); [auto|]. destruct (negb (c_access c)); [auto|].
+    destruct (s_limit s1 =? bb_len (s_buf s1)); [destruct (c_action c); auto|].
+    destruct (match c_dir c with Req => bb_len (s_buf s1) >=? max_int64 - blen d | Resp => false end); [auto|].
+    destruct (bb_len (s_buf s1) + blen d >=? s_limit s1) eqn:E.
+    + destruct (c_action c).
+      * apply (set_limit_intr_sim _ _ (st_equiv_dataerr _ _ He)).
+      * destruct ((Z.max 0 (s_limit s1 - bb_len (s_buf s1)) <? 0) || (Z.max 0 (s_limit s1 - bb_len (s_buf s1)) >? blen d)).
+        { split; [apply st_equiv_dataerr; exact He | reflexivity]. }
+        cbn [set_dataerr s_buf]. sim_write Hlim Hb. destruct e2.
+        { split; [apply st_equiv_dataerr; exact He | reflexivity]. }
+        assert (P : st_equiv o1 o2 (set_buf (set_dataerr s1) b1') (set_buf (set_dataerr s2) b2'))
+          by (apply st_equiv_buf; [apply st_equiv_dataerr; exact He | assumption]).
+        sim_process c c2 P.
+    + destruct ((blen d <? 0) || (blen d >? blen d)).
+      { destruct (c_action c); split; auto. }
+      destruct (c_action c); sim_write Hlim Hb; destruct e2; cbn [fst snd]; try (split; [exact He | reflexivity]);
+        (split; [apply st_equiv_buf; assumption | cbn [set_buf s_intr]; rewrite Ei; reflexivity]).
+  - (* reader *)
+    unfold read_from, overflow_guard.
+    change (c_engine_on c2) with (c_engine_on c). change (c_access c2) with (c_access c).
+    change (c_action c2) with (c_action c). change (c_dir c2) with (c_dir c).
+    rewrite <- El, <- Hn, <- Ei.
+    destruct (negb (c_engine_on c)); [auto|]. destruct (negb (c_access c)); [auto|].
+    destruct (s_limit s1 =? bb_len (s_buf s1)); [destruct (c_action c); auto|].
+    destruct (kn && match c_dir c with Req => bb_len (s_buf s1) >=? max_int64 - blen d | Resp => false end); [auto|].
+    fold o1. change (c_opt c2) with o2.
+    set (reached := kn && (bb_len (s_buf s1) + blen d >=? s_limit s1)).
+    set (n := if kn && negb reached then blen d else s_limit s1 - bb_len (s_buf s1)).
+    assert (He1 : st_equiv o1 o2 (if reached then set_dataerr s1 else s1) (if reached then set_dataerr s2 else s2)).
+    { destruct reached; [apply st_equiv_dataerr|]; exact He. }
+    set (t1 := if reached then set_dataerr s1 else s1) in *. set (t2 := if reached then set_dataerr s2 else s2) in *.
+    assert (Hmain :
+      let '(b1', w1, e1) := bb_copyN o1 (s_buf t1) d rs n in
+      let '(b2', w2, e2) := bb_copyN o2 (s_buf t2) d rs n in
+      w1 = w2 /\ e1 = e2 /\ buf_equiv o1 o2 b1' b2').
+    { unfold bb_copyN. apply bb_copy_loop_sim; [exact Hlim|]. destruct He1 as (X & _). exact X. }
+    assert (Hrej : st_equiv o1 o2 (fst (set_limit_intr c t1)) (fst (set_limit_intr c2 t2))
+                   /\ snd (set_limit_intr c t1) = snd (set_limit_intr c2 t2)).
+    { apply set_limit_intr_sim. exact He1. }
+    destruct reached eqn:Er; destruct (c_action c) eqn:Ea; try exact Hrej;
+      destruct (bb_copyN o1 (s_buf t1) d rs n) as [[b1' w1] e1]; destruct (bb_copyN o2 (s_buf t2) d rs n) as [[b2' w2] e2];
+      destruct Hmain as (-> & -> & Hb'); pose proof Hb' as (_ & Hn' & _);
+      pose proof (st_equiv_buf _ _ _ _ He1 Hb') as He2;
+      (destruct e2; [split; [exact He2 | reflexivity]|]);
+      rewrite <- Hn'; destruct (bb_len b1' =? s_limit s1); cbn [orb];
+      try (apply set_limit_intr_sim; apply st_equiv_dataerr; exact He2);
+      try (sim_process c c2 (st_equiv_dataerr _ _ He2));
+      try (sim_process c c2 He2);
+      (split; [exact He2 | destruct He2 as (_ & _ & -> & _); reflexivity]).
+  - pose proof (process_sim _ _ He) as (P1 & P2).
+    destruct (process_body c s1) as [x1 j1]. destruct (process_body c2 s2) as [x2 j2]. cbn [fst snd] in *.
+    split; [exact P1 | rewrite P2; reflexivity].
+  - split; [|reflexivity]. cbn [fst]. split; [exact Hb|]. cbn. tauto.
+Qed.
+
+Theorem run_sim ks : forall s1 s2, st_equiv o1 o2 s1 s2 ->
+  st_equiv o1 o2 (tb_final c s1 ks) (tb_final c2 s2 ks) /\ tb_rets c s1 ks = tb_rets c2 s2 ks.
+Proof.
+  induction ks as [|k ks IH]; intros s1 s2 He.
+  - split; [exact He | reflexivity].
+  - pose proof (step_sim s1 s2 k He) as (H1 & H2). specialize (IH _ _ H1). destruct IH as (I1 & I2).
+    rewrite !tb_final_cons. split; [exact I1|]. unfold tb_rets in *. cbn [tb_run].
+    destruct (tb_step c s1 k) as [a1 r1]. destruct (tb_step c2 s2 k) as [a2 r2]. cbn [fst snd] in *.
+    destruct (tb_run c a1 ks). destruct (tb_run c2 a2 ks). cbn [snd] in *. congruence.
+Qed.
+End SIM.
+
+(* any two memory limits (>= 0): every return value, every byte later read back, the body variable,
+   the phase bookkeeping and the flags are the same, for every call sequence including ctl limit changes *)
+Theorem memory_file_agree c m1 m2 ph ks : 0 <= m1 -> 0 <= m2 ->
+  let c1 := with_mem c m1 in let c2 := with_mem c m2 in
+  let s1 := tb_final c1 (tb_init c1 ph) ks in let s2 := tb_final c2 (tb_init c2 ph) ks in
+  tb_rets c1 (tb_init c1 ph) ks = tb_rets c2 (tb_init c2 ph) ks
+  /\ stored s1 = stored s2 /\ s_bodyvar s1 = s_bodyvar s2 /\ s_seen s1 = s_seen s2
+  /\ s_intr s1 = s_intr s2 /\ s_dataerr s1 = s_dataerr s2 /\ s_runs s1 = s_runs s2 /\ s_phase s1 = s_phase s2.
+Proof.
+  intros H1 H2. cbv zeta.
+  assert (E : st_equiv (c_opt (with_mem c m1)) (c_opt (with_mem (with_mem c m1) m2))
+                (tb_init (with_mem c m1) ph) (tb_init (with_mem c m2) ph)).
+  { split; [|cbn; tauto]. cbn [tb_init s_buf]. repeat split; cbn; lia. }
+  pose proof (run_sim (with_mem c m1) m2 ks _ _ E) as (((Hc & _) & Q) & R).
+  change (with_mem (with_mem c m1) m2) with (with_mem c m2) in *.
+  split; [exact R|]. split; [exact Hc|]. tauto.
+Qed.
+
+(* the spill file is in use exactly when more than the memory limit is stored *)
+Theorem spill_exact c ph ks : 0 <= bo_mem (c_opt c) ->
+  let s := tb_final c (tb_init c ph) ks in
+  (bb_spilled (s_buf s) = true <-> bo_mem (c_opt c) < blen (stored s)).
+Proof.
+  intros Hm. cbv zeta.
+  assert (E : st_equiv (c_opt c) (c_opt (with_mem c (bo_mem (c_opt c)))) (tb_init c ph) (tb_init c ph)).
+  { split; [|cbn; tauto]. cbn [tb_init s_buf]. repeat split; cbn; lia. }
+  pose proof (run_sim c (bo_mem (c_opt c)) ks _ _ E) as (((_ & _ & I & _) & _) & _).
+  pose proof (bb_spilled_iff _ _ I) as H. destruct I as (Hl & _). unfold stored. rewrite <- Hl. exact H.
+Qed.
+
+(* ---------- body access off or rule engine off: nothing is buffered, nothing is evaluated ---------- *)
+Theorem inactive_noop c s k : c_engine_on c = false \/ c_access c = false -> is_write k = true ->
+  tb_step c s k = (s, mk_ret None 0 false).
+Proof.
+  intros H Hw. destruct k as [d|kn rs d| |z]; try discriminate; cbn [tb_step]; unfold write_slice, read_from;
+    destruct (c_engine_on c); cbn [negb]; try reflexivity; destruct H as [H|H]; try discriminate; rewrite H; reflexivity.
+Qed.
